@@ -333,10 +333,17 @@ func (s *streamSession) exchange(in *input, wantAnswer bool) (o observation) {
 		// the previous write began (or the connection was dialled).
 		since := s.stream().LastWriteStart
 
+		// Waiting for a connection to be closed costs the whole wait when the
+		// server leaves it open; that wait is somewhat shorter.
+		wait := s.e.answerWait
+		if !wantAnswer {
+			wait = s.e.answerWait * 6 / 10
+		}
+
 		if s.dc != nil {
-			o.res = s.dc.Exchange(in.wire, s.e.answerWait)
+			o.res = s.dc.Exchange(in.wire, wait)
 		} else {
-			o.res = s.c.Exchange(in.wire, s.e.answerWait)
+			o.res = s.c.Exchange(in.wire, wait)
 		}
 
 		if o.res.Outcome == tbench.Answered {
@@ -514,9 +521,24 @@ type dohSession struct {
 
 func (s *dohSession) exchange(in *input, _ bool) (o observation) {
 	for attempt := 0; ; attempt++ {
-		if s.p.get {
+		// The body is cut into one to three pieces by the position of the
+		// input in its list.
+		pieces := 1 + in.idx%3
+
+		switch {
+		case s.p.get:
 			o.res = s.c.Get(in.wire, s.e.answerWait)
-		} else {
+		case s.p.framing == "unsized":
+			o.res = s.c.PostUnsized(in.wire, pieces, s.e.answerWait)
+		case s.p.framing == "raw-chunked":
+			req := tbench.ChunkedPOST(s.e.b.PKI.ServerName, "/dns-query", tbench.SplitPieces(in.wire, pieces))
+			o.res = s.e.b.RawHTTP1(s.p.variant, req, s.e.answerWait)
+			if o.res.Outcome == tbench.Closed || o.res.Outcome == tbench.Timeout {
+				// No HTTP response at all on a fresh connection: treat like a
+				// transport failure and try again.
+				o.res.Outcome = tbench.Failed
+			}
+		default:
 			o.res = s.c.Post(in.wire, s.e.answerWait)
 		}
 
@@ -858,6 +880,9 @@ func (e *env) account(p *pathDef, in *input, exp expectation, o observation) {
 	}
 	if note != "" {
 		e.r.Bucket("udp_response_"+note+":"+p.name, 1)
+	}
+	if in.msg != nil && len(in.msg.Question) == 0 && !in.msg.Response {
+		e.r.Bucket("zero_question_inputs:"+p.name, 1)
 	}
 	if o.res.HTTPProto != "" {
 		e.r.Bucket("http_proto:"+p.name+":"+o.res.HTTPProto, 1)
